@@ -641,8 +641,11 @@ package yang
 // never removes or replaces a module that is loaded (it only adds modules that
 // imports and includes name).
 //@ func (*Modules).Process props C18 C07
-//@   only before: loop6/body loop9/body
+//@   only before: loop5/ loop6/body loop9/body
 //@   ensures ms.Modules == old(ms.Modules) && (forall k string :: old(ms.Modules[k]) != nil ==> ms.Modules[k] == old(ms.Modules[k]))   -- not claimed (only): assumed at call sites
+//@   loop 5
+//@     exit_ensures[the-passes-go-on-while-a-module-with-augments-is-left] len(mods) == 0
+//@     break_ensures[the-passes-end-early-only-after-a-whole-pass-that-applied-nothing] processed == 0
 //@   loop 6
 //@     body_ensures[every-module-still-listed-gets-a-pass-and-stays-listed-while-it-keeps-augments] calls("(*Entry).Augment") > old(calls("(*Entry).Augment"))
 //@             && ((s != 0 && len(mods) == old(len(mods)) && i == old(i) + 1) || (s == 0 && len(mods) == old(len(mods)) - 1 && i == old(i)))   -- dropped from the list exactly when no augment of it was left over
